@@ -31,6 +31,7 @@ THEOREMS = [
     # 0. the translation maps
     "Lena.Bridge.Context.absSlot_eq",
     "Lena.Bridge.Context.getSlot_absE",
+    "Lena.Bridge.Context.getSlot_absE_not_mem",
     "Lena.Bridge.Context.absV_wf",
     "Lena.Bridge.Context.absE_wfd",
     "Lena.Bridge.Context.lookup_concL",
@@ -39,6 +40,9 @@ THEOREMS = [
     "Lena.Bridge.Context.to15_of15",
     "Lena.Bridge.Context.of15_to15",
     "Lena.Bridge.Context.getSlot_of15L",
+    "Lena.Bridge.Context.nonEmpty_of15L",
+    "Lena.Bridge.Context.leaf13_leaf13to8",
+    "Lena.Bridge.Context.leaf15_leaf15to8",
     # 1. update_recursively
     "Lena.Bridge.Context.updL_13_07",
     "Lena.Bridge.Context.updO_13_07",
@@ -62,9 +66,11 @@ THEOREMS = [
     "Lena.Bridge.Context.c13_reconstruct",
     "Lena.Bridge.Context.c07_interN_is_meet_13",
     # 3. get_recursively
+    "Lena.Bridge.Context.getSlot_mapLeafL",
     "Lena.Bridge.Context.getPath_mapLeaf",
     "Lena.Bridge.Context.updL_mapLeaf",
     "Lena.Bridge.Context.getRec_13_path",
+    "Lena.Bridge.Context.getRec2_07_13",
     "Lena.Bridge.Context.getRec_13_error",
     "Lena.Bridge.Context.getRecGo_15_path",
     "Lena.Bridge.Context.getPath_08_path",
@@ -90,7 +96,9 @@ THEOREMS = [
     "Lena.Bridge.Context.absE_singleton",
     "Lena.Bridge.Context.nestPath_08_07",
     "Lena.Bridge.Context.nestPath_08_13",
+    "Lena.Bridge.Context.strToDict_08_13",
     "Lena.Bridge.Context.strToDict_08_07",
+    "Lena.Bridge.Context.strToDict_path_08_07",
     "Lena.Bridge.Context.strToDict_empty_08_07",
     "Lena.Bridge.Context.updateRecursivelyStr_08_07",
     "Lena.Bridge.Context.c08_str_to_dict_value",
@@ -100,7 +108,10 @@ THEOREMS = [
     "Lena.Bridge.Context.lookups_13_08",
     "Lena.Bridge.Context.renderAll_13_08",
     "Lena.Bridge.Context.fmt_08_13",
+    "Lena.Bridge.Context.renderAll_13_bad",
+    "Lena.Bridge.Context.fmt_13_bad",
     "Lena.Bridge.Context.ucSet_08_13",
+    "Lena.Bridge.Context.tpl_has_brace",
     "Lena.Bridge.Context.fuw_const_08_13",
     "Lena.Bridge.Context.fuw_tpl_08_13",
     "Lena.Bridge.Context.c08_format_mono",
@@ -115,10 +126,18 @@ THEOREMS = [
     "Lena.Bridge.Context.c11_update_nested_typeError_iff",
     "Lena.Bridge.Context.c11_update_nested_absent",
     # 8. Variable._update_context
+    "Lena.Bridge.Context.lookupF_dictSet",
+    "Lena.Bridge.Context.getSlot_absFE",
     "Lena.Bridge.Context.absFE_dictSet",
     "Lena.Bridge.Context.updateContext_14_flow",
     "Lena.Bridge.Context.variableCall_ctx_14",
     "Lena.Bridge.Context.UP_untyped",
+    # 9. the slot-vector side is covered (absE is onto)
+    "Lena.Bridge.Context.concE_wf",
+    "Lena.Bridge.Context.updL_07_08",
+    "Lena.Bridge.Context.updL_13_08",
+    "Lena.Bridge.Context.getPath_07_08",
+    "Lena.Bridge.Context.contains_15_08",
 ]
 TRUSTED = [
     "Lean 4.33.0 kernel; axioms limited to propext, Classical.choice, Quot.sound (audited by #print axioms on every run)",
@@ -452,7 +471,7 @@ GENS = [("upd", gen_upd, 3), ("inter", gen_inter, 3), ("get", gen_get, 3), ("con
 
 def gen_cases(ctx):
     rng, big = ctx.rng, ctx.tier == "thorough"
-    unit = 6000 if big else 350
+    unit = 8000 if big else 1200
     for _, g, w in GENS:
         for _ in range(unit * w):
             yield g(rng)
@@ -686,17 +705,42 @@ def ref_contained(a, b):
     return True
 
 
+def ref_untouched(o, p):
+    """walking p in `other` meets an absent key while still inside dictionaries (C07.untouchedL)"""
+    cur = o
+    for k in p:
+        if not isinstance(cur, dict):
+            return False
+        if k not in cur:
+            return True
+        cur = cur[k]
+    return False
+
+
+def leaf_paths(d, prefix=()):
+    for k, v in d.items():
+        yield prefix + (k,)
+        if isinstance(v, dict):
+            yield from leaf_paths(v, prefix + (k,))
+
+
 def oracle(case, res):
     if res.get("skip"):
         return None
     op = case["op"]
     if op == "upd" and "r" in res:
-        o, r = dec(case["o"]), dec(res["r"])
+        d, o, r = dec(case["d"]), dec(case["o"]), dec(res["r"])
         if not ref_contained(o, r):
             return f"update_recursively: other {o!r} is not contained in the result {r!r}"
         again = res.get("again", {})
         if "r" not in again or not weq(again["r"], res["r"]):
             return f"update_recursively is not idempotent: {res['r']} then {again}"
+        for p in leaf_paths(d):
+            if ref_untouched(o, p):
+                a, b = ref_get(d, p), ref_get(r, p)
+                if b is MISSING or not weq(enc(a), enc(b)):
+                    return (f"update_recursively changed the item at {list(p)}, which other {o!r} leaves alone: {a!r} -> "
+                            + ("absent" if b is MISSING else repr(b)))
     if op == "inter" and "r" in res and case["lv"] < 0:
         r = dec(res["r"])
         for w in case["ds"]:
@@ -711,10 +755,46 @@ def oracle(case, res):
                     return f"get_recursively of an absent path {case['p']} gave {res}"
             elif "r" not in res or not weq(res["r"], enc(v)):
                 return f"get_recursively({case['key']}) = {res}, the path names {v!r}"
+    if op == "contains" and case["s"] != "" and "r" in res:
+        d, parts = dec(case["d"]), case["s"].split(".")
+        want = ref_get(d, parts) is not MISSING
+        if not want:
+            x = ref_get(d, parts[:-1])
+            want = x is not MISSING and not isinstance(x, dict) and str(x) == parts[-1]
+        if res["r"] != want:
+            return f"contains(d, {case['s']!r}) = {res['r']}: the path names an item / str() of the scalar before it: {want}"
     if op == "s2d" and "r" in res and "value" in case and case["s"] != "":
         v = ref_get(dec(res["r"]), case["p"])
         if v is MISSING or not weq(enc(v), case["value"]):
             return f"str_to_dict({case['s']!r}, value): the path does not name the value in {res['r']}"
+    if op == "fmt" and res.get("init") == "ok":
+        d = dec(case["d"])
+        vals = [ref_get(d, p) for p, _ in case["t"]["parts"]]
+        if any(v is MISSING for v in vals):
+            if res.get("e") != "LenaKeyError":
+                return f"format_context({res['str']!r}) with an absent field gave {res}"
+        else:
+            want = case["t"]["head"] + "".join(str(v) + lit for v, (_, lit) in zip(vals, case["t"]["parts"]))
+            if res.get("r") != want:
+                return f"format_context({res['str']!r})(d) = {res}, literals and str(items): {want!r}"
+    if op == "nested" and "r" in res:
+        d, o, k = dec(case["d"]), dec(case["o"]), case["k"]
+        r = dec(res["r"])
+        if k in d:
+            depth, cur = 0, o
+            while isinstance(cur, dict) and k in cur:
+                depth, cur = depth + 1, cur[k]
+            got = ref_get(r, [k] * (depth + 2))
+            if got is MISSING or not weq(enc(got), enc(d[k])):
+                return f"update_nested({k!r}): d[{k!r}] = {d[k]!r} is not at depth {depth + 2} of the result {r!r}"
+        elif not weq(enc(r.get(k)), enc(o)):
+            return f"update_nested({k!r}) with the key absent from d: result[{k!r}] != other"
+    if op == "var" and "r" in res:
+        c, r = dec(case["ctx"]), dec(res["r"])
+        want = dict(c)
+        want["variable"] = {"name": case["name"]}
+        if not weq(enc(r), enc(want)):
+            return f"untyped Variable({case['name']!r}) on {c!r}: context {r!r}, expected variable = its var_context only"
     return None
 
 
@@ -739,6 +819,37 @@ def classify(case, res):
     if op == "upd" and case["is"]:
         labels.append("upd:ints-and-strings")
     return labels
+
+
+def _smaller(w):
+    """wire values with one item of one dictionary (at any depth) removed, or a sub-dictionary replaced by a scalar"""
+    if isinstance(w, dict) and "d" in w:
+        items = w["d"]
+        for i in range(len(items)):
+            yield {"d": items[:i] + items[i + 1:]}
+        for i, (k, x) in enumerate(items):
+            for y in _smaller(x):
+                yield {"d": items[:i] + [[k, y]] + items[i + 1:]}
+
+
+def shrink(case):
+    if not isinstance(case, dict) or case.get("b") != 1:
+        return
+    for f in ("d", "o", "ctx"):
+        if f in case:
+            for w in _smaller(case[f]):
+                c = dict(case)
+                c[f] = w
+                if case["op"] == "upd":
+                    c["is"] = is_is(c["d"]) and is_is(c["o"])
+                yield c
+    if "ds" in case:
+        ds = case["ds"]
+        for i in range(len(ds)):
+            if len(ds) > 1:
+                yield dict(case, ds=ds[:i] + ds[i + 1:])
+            for w in _smaller(ds[i]):
+                yield dict(case, ds=ds[:i] + [w] + ds[i + 1:])
 
 
 def signature(case, failure):
